@@ -41,14 +41,15 @@ def written_range(t):
 
 
 def collapse_free(s):
-    """distinct, ordered timestamps stay distinct and ordered whatever way the near-integer rule is applied"""
+    """distinct timestamps (entry boundaries, tier spans, the span the file is written with) stay distinct and ordered
+    whatever way the near-integer rule is applied"""
     for t in s["tiers"]:
-        seq = [s["min"], t["min"]] if t["min"] >= s["min"] else [t["min"]]
+        vals = {s["min"], s["max"], t["min"], t["max"]}
         for e in t["entries"]:
-            seq.extend(e[:-1])
-        seq.extend([t["max"], s["max"]] if t["max"] <= s["max"] else [t["max"]])
+            vals.update(e[:-1])
+        seq = sorted(vals)
         for a, b in zip(seq, seq[1:]):
-            if a != b and not written_range(a)[1] < written_range(b)[0]:
+            if not written_range(a)[1] < written_range(b)[0]:
                 return False
     return True
 
